@@ -1,5 +1,5 @@
 (* Theorems about a whole resolution (resolve_with), assembled from the step invariants. *)
-From DV Require Import Base.Prelude Model.NameM Model.ResolM Proofs.ResolBase Proofs.ResolTerm Proofs.ResolTrace.
+From DV Require Import Base.Prelude Model.NameM Model.ResolM Proofs.ResolBase Proofs.ResolTerm Proofs.ResolTrace Proofs.ResolSpec Proofs.ResolCand.
 Open Scope Z_scope.
 
 Lemma FOP_impl : forall {A} (R S : A -> A -> Prop) l,
@@ -93,3 +93,119 @@ Proof.
   - inversion H; subst. exists []. rewrite app_nil_r. split; auto. split; [exact Logic.I|]. split; [intros a0 La; discriminate|constructor].
 Qed.
 End Main.
+
+(* ---------- the decision table ---------- *)
+Theorem outcome_spec_resolve : forall sc c ch fuel e f s' e',
+  resolve_with fuel sc c ch e = (f, s', e') -> f <> FFuel ->
+  exists new, e_trace e' = e_trace e ++ new /\
+    match f with
+    | FInternal _ => True
+    | _ => outcome_ok c (e_clock e) ch new f (e_clock e') /\ s_cache s' = cache_after c ch new
+    end.
+Proof.
+  intros sc c ch fuel e f s' e' H HF. unfold resolve_with in H.
+  pose proof (next_request_spec c (c_qnames c) (init_st c ch) (e_clock e)) as HS.
+  destruct (next_request c (init_st c ch) (c_qnames c) (e_clock e)) as [s1|s1 a|s1 a|s1] eqn:ENR; simpl in H.
+  - destruct HS as (skipped & q & rest & s0 & E1 & E2 & (F1 & F2 & F3) & (X1 & X2 & X3)).
+    simpl in F1, F2, F3.
+    refine (loop_ind sc c (e_clock e) (OInv c ch (e_trace e))
+              (fun f s' e' => exists new, e_trace e' = e_trace e ++ new /\
+                 match f with
+                 | FInternal _ => True
+                 | _ => outcome_ok c (e_clock e) ch new f (e_clock e') /\ s_cache s' = cache_after c ch new
+                 end)
+              _ _ fuel s1 e f s' e' _ H HF).
+    + intros. eapply oinv_step; eauto.
+    + intros. eapply oinv_final; eauto.
+    + exists []. rewrite app_nil_r. subst s1. simpl.
+      split; [reflexivity|]. split; [reflexivity|]. split; [constructor|].
+      split; [exact F3|].
+      split. { exists skipped. split; [exact E1|exact X1]. }
+      split. { intros k v Hkv. destruct (X3 k v Hkv) as [[]|(H1 & H2)].
+               right. split; [exact H1|]. exists [], [], (e_clock e). split; [reflexivity|exact H2]. }
+      unfold covered. simpl. rewrite F1. intros sv Hsv. left. apply in_map. exact Hsv.
+  - destruct HS as (skipped & q & rest & E1 & (F1 & F2 & F3) & (X1 & X2 & X3) & E5 & E6 & E7).
+    injection H as Hf Hs He. subst f s' e'. exists []. rewrite app_nil_r. split; [reflexivity|]. simpl. split; [|exact F3].
+    split; [exact E7|]. right. split; [exact E5|]. split; [constructor|].
+    exists q. split; [rewrite E1; apply in_or_app; right; left; reflexivity|exact E6].
+  - destruct HS as (skipped & q & rest & E1 & (F1 & F2 & F3) & (X1 & X2 & X3) & E5 & E6 & E7 & E8).
+    injection H as Hf Hs He. subst f s' e'. exists []. rewrite app_nil_r. split; [reflexivity|]. simpl. split; [|exact F3].
+    split; [auto|]. right. split; [exact E5|]. split; [constructor|].
+    exists q. split; [rewrite E1; apply in_or_app; right; left; reflexivity|exact E6].
+  - destruct HS as ((F1 & F2 & F3) & (X1 & X2 & X3)).
+    injection H as Hf Hs He. subst f s' e'. exists []. rewrite app_nil_r. split; [reflexivity|]. simpl. split; [|exact F3].
+    split; [reflexivity|]. split; [constructor|].
+    intros q Hq. destruct (X1 q Hq) as (k & v & K1 & K2). exists k, v. split; [exact K1|]. split; [exact K2|].
+    destruct (X3 k v K1) as [[]|(H1 & H2)].
+    right. split; [exact H1|]. exists [], [], (e_clock e). split; [reflexivity|exact H2].
+Qed.
+
+(* ---------- candidate names are asked in order ---------- *)
+Theorem candidates_in_order_resolve : forall sc c ch fuel e f s' e',
+  resolve_with fuel sc c ch e = (f, s', e') -> f <> FFuel ->
+  exists new, e_trace e' = e_trace e ++ new /\ Forall (cand_at c) new /\ adjacent cand_rel new.
+Proof.
+  intros sc c ch fuel e f s' e' H HF. unfold resolve_with in H.
+  destruct (next_request c (init_st c ch) (c_qnames c) (e_clock e)) as [s1|s1 a|s1 a|s1] eqn:ENR; simpl in H.
+  - apply next_request_request in ENR.
+    destruct ENR as (q & rest & skipped & s0 & R1 & R2 & R3 & R4 & R5).
+    refine (loop_ind sc c (e_clock e) (QInv c (e_trace e))
+              (fun f s' e' => exists new, e_trace e' = e_trace e ++ new /\ Forall (cand_at c) new /\ adjacent cand_rel new)
+              _ _ fuel s1 e f s' e' _ H HF).
+    + intros. eapply qinv_step; eauto.
+    + intros. eapply qinv_final; eauto.
+    + exists []. rewrite app_nil_r. split; [reflexivity|].
+      split. { exists skipped. subst s1. simpl. exact R1. }
+      split; [constructor|]. split; [exact Logic.I|]. intros a0 La. discriminate.
+  - injection H as Hf Hs He. subst. exists []. rewrite app_nil_r. split; [reflexivity|]. split; [constructor|exact Logic.I].
+  - injection H as Hf Hs He. subst. exists []. rewrite app_nil_r. split; [reflexivity|]. split; [constructor|exact Logic.I].
+  - injection H as Hf Hs He. subst. exists []. rewrite app_nil_r. split; [reflexivity|]. split; [constructor|exact Logic.I].
+Qed.
+
+(* ---------- results are cached under the queried name, type and class ---------- *)
+Lemma cache_step_answer : forall c chx ev m a,
+  c_cache c = true -> ev_obs ev = OMsg m -> accepts (ev_obs ev) <> None ->
+  make_answer (ev_qname ev) (c_rdtype c) (c_rdclass c) m (Some (ev_server ev)) (ev_end ev) (Z.of_nat (ev_idx ev)) = Ok a ->
+  cache_step c chx ev = cache_put chx {| k_name := ev_qname ev; k_type := c_rdtype c; k_class := c_rdclass c |} a.
+Proof.
+  intros c chx ev m a HC HO HA HM. unfold cache_step. rewrite HC, HO. rewrite HO in HA. simpl in HA.
+  destruct (m_rcode m =? rcNOERROR); [|congruence]. rewrite HM. reflexivity.
+Qed.
+
+(* a reply accepted from the network is afterwards found under (question name, rdtype, rdclass)
+   until it expires; the question name is one of the candidates *)
+Theorem cache_put_spec_resolve : forall sc c ch fuel e f s' e' a,
+  resolve_with fuel sc c ch e = (f, s', e') -> f <> FFuel -> c_cache c = true ->
+  f = FAnswer a \/ f = FNoAnswer a ->
+  forall new, e_trace e' = e_trace e ++ new -> from_network c new a ->
+  In (a_qname a) (c_qnames c) /\
+  forall now, now < a_expiration a ->
+    cache_get (s_cache s') {| k_name := a_qname a; k_type := c_rdtype c; k_class := c_rdclass c |} now = Some a.
+Proof.
+  intros sc c ch fuel e f s' e' a H HF HC Hf new HE HN.
+  destruct (outcome_spec_resolve _ _ _ _ _ _ _ _ H HF) as (new1 & HE1 & HO).
+  destruct (candidates_in_order_resolve _ _ _ _ _ _ _ _ H HF) as (new2 & HE2 & HC2 & _).
+  assert (new1 = new) by (rewrite HE in HE1; apply app_inv_head in HE1; auto).
+  assert (new2 = new) by (rewrite HE in HE2; apply app_inv_head in HE2; auto).
+  subst new1 new2.
+  assert (HS: s_cache s' = cache_after c ch new) by (destruct Hf; subst f; apply HO).
+  destruct HN as (pre & ev & m & E1 & _ & E3 & E4 & E5).
+  destruct (make_answer_ok _ _ _ _ _ _ _ _ E5) as (chx & _ & Q & _).
+  split.
+  - rewrite Q. subst new. apply Forall_app in HC2. destruct HC2 as [_ HC2]. inversion HC2 as [|x l (done & rest & D1 & _) _]; subst.
+    rewrite D1. apply in_or_app. right. left. reflexivity.
+  - intros now Hnow. rewrite HS, E1, cache_after_snoc, (cache_step_answer c _ ev m a HC E3 E4 E5), Q.
+    apply cache_get_put_same. exact Hnow.
+Qed.
+
+(* an unexpired cached answer for the first candidate is returned without any query *)
+Theorem cache_hit_spec_resolve : forall sc c ch fuel e q rest a,
+  c_qnames c = q :: rest -> c_cache c = true ->
+  cache_get ch {| k_name := q; k_type := c_rdtype c; k_class := c_rdclass c |} (e_clock e) = Some a ->
+  exists s', resolve_with fuel sc c ch e =
+    ((if (match a_rrset a with None => true | Some _ => false end) && c_raise c then FNoAnswer a else FAnswer a), s', e)
+    /\ s_cache s' = ch.
+Proof.
+  intros sc c ch fuel e q rest a HQ HC HG. unfold resolve_with. rewrite HQ. simpl. rewrite HC. simpl. rewrite HG.
+  destruct ((match a_rrset a with None => true | Some _ => false end) && c_raise c); simpl; eexists; split; reflexivity.
+Qed.
